@@ -598,6 +598,104 @@ def run_many_threads(case, acc):
     acc.case(case, True, viols)
 
 
+def run_first_calls(case, acc):
+    """A fresh interpreter: psutil was imported (by this thread) at snapshot S0 and nothing was asked since. The four
+    percentage forms are then called for the first time in a generated order, from the importing thread and from another one,
+    a fresh snapshot before every call; a second round follows. Each (thread, function, form) is measured against *its own*
+    previous sample: for a first call that is the import-time sample (importing thread) or nothing at all (all zeros) - never
+    the sample another function or thread took in between."""
+    import random
+    nf = case["nf"]
+    env = setup(nf)
+    ps, vk, st, clock = env["ps"], env["vk"], env["st"], env["clock"]
+    names = FIELDS[:nf]
+    rng = random.Random(case["rseed"])
+    ncpu = case["ncpu"]
+    s0 = [list(c) for c in env["import_snap"]]
+    viols = []
+    ctx = f"nf={nf} ncpu={ncpu} order={case['order']}"
+
+    def advance(cur):
+        nxt = []
+        for c in cur:
+            d = [rng.randrange(1, 50) * CLK for _ in range(nf)]
+            d[3] = rng.choice([0, 1, 7, 300]) * CLK
+            if nf >= 9:
+                d[8] = min(d[8], d[0])
+            if nf >= 10:
+                d[9] = min(d[9], d[1])
+            nxt.append([x + y for x, y in zip(c, d)])
+        return nxt
+
+    def rows_for(fn, percpu, before, after):
+        pairs = list(zip(before, after)) if percpu else [(agg(before), agg(after))]
+        out = []
+        for a, b in pairs:
+            if fn == "cpu_percent":
+                out.append([want_percent(a, b)])
+            else:
+                d = deltas(a, b)
+                tot, _ = tot_busy(d)
+                out.append([Fraction(100 * x, tot) if tot else Fraction(0) for x in d])
+        return out
+
+    def matches(fn, percpu, got, want_rows):
+        rows = got if percpu else [got]
+        if len(rows) != len(want_rows):
+            return False
+        for row, w in zip(rows, want_rows):
+            vals = [row] if fn == "cpu_percent" else list(row)
+            if len(vals) != len(w) or not all(close(v, min(x, Fraction(100))) for v, x in zip(vals, w)):
+                return False
+        return True
+
+    if len(s0) != ncpu:
+        # the machine shape is fixed by what was there at import: this shard's import snapshot has one CPU; grow it before
+        # anything is asked is not possible without a second import, so per-CPU rows are compared CPU by CPU as far as both go
+        ncpu = len(s0)
+    last = {}
+    with vk:
+        old_time = ps.time
+        ps.time = env["vkernel"].TimeProxy(clock, old_time)
+        try:
+            cur = s0
+            for rnd in (0, 1):
+                for th, fn, percpu in case["order"]:
+                    cur = advance(cur)
+                    st.snap = [list(c) for c in cur]
+                    clock.advance(1.0)
+                    f = lambda fn=fn, percpu=percpu: getattr(ps, fn)(percpu=percpu)  # noqa: E731
+                    if th == 0:
+                        try:
+                            r = ("ok", f())
+                        except BaseException as e:  # noqa: BLE001
+                            r = ("exc", e)
+                    else:
+                        r = env["threads"][th - 1].call(f)
+                    acc.count("first_round_calls_checked" if rnd == 0 else "second_round_calls_checked")
+                    key = (th, fn, percpu)
+                    if r[0] != "ok":
+                        viols.append((f"{fn}_exception:{type(r[1]).__name__}:first_calls_after_import", ctx + f" {key} -> {r[1]!r}"))
+                        last[key] = cur
+                        continue
+                    if key in last:
+                        ok = matches(fn, percpu, r[1], rows_for(fn, percpu, last[key], cur))
+                        tag = "second_call"
+                    else:
+                        cands = [rows_for(fn, percpu, cur, cur)]            # no previous sample: nothing elapsed
+                        if th == 0:
+                            cands.append(rows_for(fn, percpu, s0, cur))     # the sample taken when psutil was imported
+                        ok = any(matches(fn, percpu, r[1], w) for w in cands)
+                        tag = "first_call_after_import"
+                    if not ok:
+                        viols.append((f"{fn}_wrong:{tag}:measured_against_a_foreign_sample",
+                                      ctx + f" round={rnd} call={key} got={r[1]!r} own previous sample={last.get(key, s0 if th == 0 else None)} now={cur}"))
+                    last[key] = cur
+        finally:
+            ps.time = old_time
+    acc.case(case, True, viols)
+
+
 def plan(tier, seed):
     n = 3000 if tier == "quick" else 120000
     shards = []
@@ -611,6 +709,21 @@ def plan(tier, seed):
                 shards.append(dict(kind="switch", a=a, b=b))
     for nf, nthreads in ((10, 100), (8, 300 if tier == "quick" else 1500)):
         shards.append(dict(kind="many_threads", nf=nf, threads=nthreads, every=10))
+    # first calls after a fresh import: every order of the four percentage forms on the importing thread (4! = 24), calls of
+    # a second thread woven in; one interpreter per order
+    import itertools
+    import random
+    forms = [(fn, pc) for fn in ("cpu_percent", "cpu_times_percent") for pc in (False, True)]
+    orders = list(itertools.permutations(forms))
+    reps = 1 if tier == "quick" else 8
+    for rep in range(reps):
+        for i, perm in enumerate(orders):
+            rng = random.Random(f"c07-first-{seed}-{rep}-{i}")
+            order = [[0, fn, pc] for fn, pc in perm]
+            for fn, pc in rng.sample(forms, rng.randrange(0, 5)):
+                order.insert(rng.randrange(0, len(order) + 1), [1, fn, pc])
+            shards.append(dict(kind="first_calls", nf=(7, 8, 9, 10)[(i + rep + seed) % 4], ncpu=1, order=order,
+                               rseed=rng.randrange(1 << 30)))
     return shards
 
 
@@ -628,11 +741,16 @@ def run_shard(shard):
         acc.count(f"cases_nf{shard['nf']}", acc.evals)
     elif k == "switch":
         run_switch(shard, acc)
+    elif k == "first_calls":
+        run_first_calls(shard, acc)
     elif k == "many_threads":
         run_many_threads(dict(kind="many_threads", nf=shard["nf"], threads=shard["threads"], every=shard["every"]), acc)
     elif k == "cases":
         if shard["cases"] and shard["cases"][0].get("kind") == "many_threads":
             run_many_threads(shard["cases"][0], acc)
+            return acc.result()
+        if shard["cases"] and shard["cases"][0].get("kind") == "first_calls":
+            run_first_calls(shard["cases"][0], acc)
             return acc.result()
         if shard["cases"] and shard["cases"][0].get("kind") == "switch":
             run_switch(shard["cases"][0], acc)
